@@ -259,6 +259,30 @@ class Small:
         return f"Small{self.shape}"
 
 
+class Masked:
+    """compressed view full[..., mask, ...] along `axis` (see arrmodels)"""
+
+    def __init__(self, full, mask, axis):
+        self.full = full
+        self.mask = mask
+        self.axis = axis
+
+    @property
+    def ghost(self):
+        return self.full.ghost
+
+    @property
+    def kind(self):
+        return self.full.kind
+
+    @property
+    def rank(self):
+        return self.full.rank
+
+    def __repr__(self):
+        return f"Masked<{self.full!r} axis={self.axis}>"
+
+
 class Obj:
     """record-like python object (Grid, trees, accessors ...) with symbolic fields"""
 
@@ -408,6 +432,8 @@ def clone(v, memo):
         memo[k] = r
         return r
     if isinstance(v, StrSym):
+        return v
+    if type(v).__name__ in ("Masked", "RavelView", "DType", "NanTok"):
         return v
     if isinstance(v, set):
         return set(v)
